@@ -409,7 +409,7 @@ def gen_cases(rng, tier):
     for _ in range(2000 if big else 150):
         cases.append(_full_case(rng, L.gen_grammar(rng, allow_leftrec=0.25), 8))
     # (3) histories of constructor calls in one process
-    for _ in range(1500 if big else 150):
+    for _ in range(800 if big else 150):
         cases.append(gen_history(rng))
     # the implementation runner cuts the case list into consecutive shards: spread the (expensive) sweep chunks
     rng.shuffle(cases)
